@@ -42,7 +42,7 @@ CHECKS = {
     "C04": ("seqx", TECH_E1,
             "All ancestry-disjoint 1+1 pairs of operations from base B2 in every interleaving (2+1 deviation-bounded in "
             "thorough), plus 3-4 operation chains around a folder rename (edit child, rename folder, follow-up on the child at "
-            "its new path, move it back) two rename cycles (files swapping names through a temporary name) and three replace-by-rename chains against an unrelated operation on the other side, explored with <=1 (2) deviations "
+            "its new path, move it back) two rename cycles (files swapping names through a temporary name) three replace-by-rename chains and four chains that move a synced file into, out of or between folders and rename the folder straight afterwards, against an unrelated operation on the other side, explored with <=1 (2) deviations "
             "from three default schedules (prompt, lazy remote intake, lazy local intake): both quiet trees equal a reference "
             "three-way merge computed on a dict tree.", NOTE_E1, "5/C04"),
     "C05": ("seqx", TECH_E1,
@@ -86,7 +86,9 @@ CHECKS = {
             "test fixture: its two defects are listed as known findings.", "5/C09"),
     "C11": ("apix+seqx", TECH_E2 + "; invariant monitor on the engine exploration",
             "All sequences of raw state-level operations (events for both id styles, split, discard, conflict, finish, "
-            "side-state move, field assignments) to depth 2 on the full and depth 3 on a reduced alphabet on a bare SyncState, "
+            "side-state move, field assignments) to depth 2 on the full and depth 3 on a reduced alphabet on a bare SyncState, from the "
+            "empty state and (depth 2, full alphabet) from a non-initial state holding a synced pair with a pending remote change next to a "
+            "local-only pending entry, "
             "plus the same index/pending-set invariants after every transition of an engine exploration - on the live state and, for a "
             "quarter of the jobs, on a SyncState rebuilt from a copy of the storage (what a restart would load); id take-over histories "
             "(a name freed and re-used by rename on path-id flavours) are part of the monitored list.",
